@@ -186,3 +186,225 @@ def gen_case(seed, prof=DEFAULT_PROFILE, dirsize=4096, **hist_kw):
     return {'kind': 'hist', 'seed': seed, 'dirsize': dirsize, 'cache': 'cache.gz',
             'tree': gen_tree(rng, prof), 'funcs': funcs,
             'steps': gen_history(rng, prof, nfuncs=nfuncs, **hist_kw)}
+
+
+# ---------------------------------------------------------------------------------------------
+# Scenario families: small hand-shaped programs around the mechanisms the properties name, with
+# random paths / modes.  They run before the purely random cases in every history check.
+# ---------------------------------------------------------------------------------------------
+E = None
+
+
+def _e(v):
+    return enc_simple(v)
+
+
+def _fn(name, stmts, ret='acc'):
+    return {'name': name, 'stmts': stmts, 'ret': ret}
+
+
+def _bf(path, callee, arg=0, catch=True, cmp_='M', kw=None):
+    return ['bf', path, cmp_, callee, _e(arg), _e(kw or {}), catch]
+
+
+def _sb(callee, arg=0, catch=True, kw=None):
+    return ['sb', callee, _e(arg), _e(kw or {}), catch]
+
+
+def _q(kind, path, extra=None):
+    if kind == 'walk' and extra is None:
+        extra = True
+    if kind == 'read' and extra is None:
+        extra = 'M'
+    return ['q', kind, path, extra]
+
+
+def _build(versions=None, root=0, arg=0, name='n'):
+    return ['build', name, _e(versions or {}), root, _e(arg)]
+
+
+def _probe(rng, paths, k=3):
+    out = []
+    for p in rng.sample(paths, min(k, len(paths))):
+        out.append(_q(rng.choice(['is_file', 'is_dir', 'exists', 'list_dir', 'walk', 'get_size', 'read']), p))
+    return out
+
+
+def scen_nested_failure(rng):
+    """a caught failing call whose function first built a nested file successfully into new directories"""
+    d1, d2 = rng.sample(NAMES, 2)
+    deep = rng.random() < 0.5
+    y = '%s/%s/y' % (d1, d2) if deep else '%s/y' % d1
+    x = '%s/x' % d1 if rng.random() < 0.6 else '%s/x' % d2
+    outer_is_bf = rng.random() < 0.5
+    fail = rng.choice(['raise', 'nowrite', 'nonjson', 'none'])
+    body = [_bf(y, 3, catch=rng.random() < 0.8, cmp_=rng.choice('MH'))] + _probe(rng, [d1, '%s/%s' % (d1, d2), y, x, ''], 2)
+    if fail == 'raise':
+        body.append(['w', None]); body.append(['raise', 7])
+    elif fail == 'nowrite':
+        pass
+    else:
+        body.append(['w', None])
+    funcs = [
+        _fn('f0', [(_bf(x, 2) if outer_is_bf else _sb(1))] + _probe(rng, [d1, d2, y, x, '', '%s/%s' % (d1, d2)], 3)),
+        _fn('f1', [_bf(x, 2, catch=rng.random() < 0.7)] + _probe(rng, [d1, y, x], 1)),
+        _fn('f2', body, 'nonjson' if fail == 'nonjson' else 'acc'),
+        _fn('f3', [['w', None]] if rng.random() < 0.85 else []),
+    ]
+    funcs.append(_fn('rootfail', funcs[0]['stmts'] + [['raise', 99]]))
+    steps = [_build(), _build()]
+    tail = rng.choice(['clean', 'mut', 'fail', 'empty'])
+    if tail == 'mut':
+        steps += [['mut', rng.choice(['delete', 'touch', 'write', 'rmtree']), rng.choice([y, x, d1]), 'm1', 6000], _build()]
+    elif tail == 'fail':
+        steps += [_build(root=4), _build()]
+    steps += [['clean', 'n']] if rng.random() < 0.6 else []
+    return {'tree': [], 'funcs': funcs, 'steps': steps}
+
+
+def scen_swap(rng):
+    """a path that is a directory of outputs in one build and an output file in the next (and back)"""
+    d = rng.choice(NAMES)
+    sub = '%s/%s' % (d, rng.choice(NAMES))
+    inner = sub + '/' + rng.choice(NAMES)
+    foreign = rng.random() < 0.3
+    funcs = [
+        _fn('f0', [['if', ['arg', _e(0)], [_bf(inner, 1, catch=False, cmp_=rng.choice('MH'))], [_bf(sub, 1, arg=1, catch=rng.random() < 0.5)]]]
+            + _probe(rng, [d, sub, inner, ''], 3)),
+        _fn('f1', _probe(rng, [d, sub], 1) + [['w', None]]),
+    ]
+    funcs.append(_fn('rootfail', funcs[0]['stmts'] + [['raise', 99]]))
+    steps = [_build(arg=0)]
+    if foreign:
+        steps.append(['mut', 'write', sub + '/zz', 'm3', 6001])
+    steps += [_build(arg=1, root=rng.choice([0, 0, 2])), _build(arg=1), _build(arg=0), _build(arg=0)]
+    if rng.random() < 0.5:
+        steps.append(['clean', 'n'])
+    return {'tree': [], 'funcs': funcs, 'steps': steps}
+
+
+def scen_stale_dir(rng):
+    """directories created by an earlier build that now hold foreign content or nothing"""
+    d = rng.choice(NAMES)
+    sub = '%s/%s' % (d, rng.choice(NAMES))
+    out = sub + '/o'
+    funcs = [
+        _fn('f0', [['if', ['arg', _e(0)], [_bf(out, 1, catch=False)], []]] + _probe(rng, [d, sub, out, sub + '/zz', ''], 4)
+            + [_sb(2)]),
+        _fn('f1', [['w', None]]),
+        _fn('f2', _probe(rng, [d, sub, out, ''], 3)),
+    ]
+    funcs.append(_fn('rootfail', funcs[0]['stmts'] + [['raise', 99]]))
+    steps = [_build(arg=0)]
+    m = rng.choice(['foreign', 'none', 'deleteout', 'rmtree'])
+    if m == 'foreign':
+        steps.append(['mut', 'write', sub + '/zz', 'm4', 6002])
+    elif m == 'deleteout':
+        steps.append(['mut', 'delete', out, None, None])
+    elif m == 'rmtree':
+        steps.append(['mut', 'rmtree', d, None, None])
+    steps += [_build(arg=1, root=rng.choice([0, 0, 3])), _build(arg=1), _build(arg=0)]
+    if rng.random() < 0.5:
+        steps.append(['clean', rng.choice(['n', None])])
+    return {'tree': [], 'funcs': funcs, 'steps': steps}
+
+
+def scen_dups(rng):
+    """a second call with the same key: same level, nested, inside a reused subtree, first one failed"""
+    p = rng.choice(PATHS2)
+    first_fails = rng.random() < 0.4
+    use_bf = rng.random() < 0.5
+    call = (lambda catch: _bf(p, 2, catch=catch)) if use_bf else (lambda catch: _sb(2, arg=[1, 2.0], catch=catch))
+    call2 = (lambda catch: _bf(p, 2, catch=catch)) if use_bf else (lambda catch: _sb(2, arg=(1.0, 2), catch=catch))
+    where = rng.choice(['same', 'nested', 'cached'])
+    if where == 'same':
+        root = [call(True), call2(True)]
+        f1 = []
+    elif where == 'nested':
+        root = [_sb(1), call2(True)] if rng.random() < 0.5 else [call(True), _sb(1)]
+        f1 = [call(True)]
+    else:
+        root = [['if', ['arg', _e(0)], [_sb(1)], [call2(True), _sb(1)]]]
+        f1 = [call(True)]
+    funcs = [_fn('f0', root + _probe(rng, [p, ''], 1)), _fn('f1', f1 + _probe(rng, [p], 1)),
+             _fn('f2', ([['raise', 5]] if first_fails else []) + [['w', None]], rng.choice(['acc', {'const': _e([1, {'a': 2.5}])}]))]
+    funcs.append(_fn('rootfail', funcs[0]['stmts'] + [['raise', 99]]))
+    steps = [_build(arg=0), _build(arg=rng.choice([0, 1])), _build(arg=rng.choice([0, 1]))]
+    return {'tree': [], 'funcs': funcs, 'steps': steps}
+
+
+VERSION_POOL = [None, 0, 1, 1.0, True, '1', [1], {'a': 1, 'b': 2}, {'b': 2, 'a': 1}, {'a': 1}, 2, False, 0.0, '', [], {}]
+
+
+def scen_versions(rng):
+    """version changes for a function at some depth of a call graph, and JSON-equal non-changes"""
+    p1, p2 = rng.sample(PATHS2, 2)
+    funcs = [
+        _fn('f0', [_sb(1), _sb(4), _bf(p2, 5, catch=True)]),
+        _fn('f1', [_sb(2, catch=rng.random() < 0.5)] + _probe(rng, [p1, p2], 1)),
+        _fn('f2', [_bf(p1, 3, catch=rng.random() < 0.7)]),
+        _fn('f3', ([['raise', 3]] if rng.random() < 0.25 else []) + [['w', None]]),
+        _fn('f4', _probe(rng, [p1, p2, ''], 2)),
+        _fn('f5', [['w', None]]),
+    ]
+    funcs.append(_fn('rootfail', funcs[0]['stmts'] + [['raise', 99]]))
+    names = ['f1', 'f2', 'f3', 'f4', 'f5', 'other']
+    v = {}
+    steps = []
+    for _ in range(rng.randint(3, 5)):
+        if rng.random() < 0.7:
+            v = dict(v)
+            n = rng.choice(names)
+            if rng.random() < 0.2 and n in v:
+                del v[n]
+            else:
+                v[n] = rng.choice(VERSION_POOL)
+        steps.append(_build(versions=v))
+    return {'tree': [], 'funcs': funcs, 'steps': steps}
+
+
+def scen_reads(rng, modes=None, samemeta=False):
+    """inputs and outputs read with HASH / METADATA, changed or merely touched between builds"""
+    inp = rng.choice(PATHS2)
+    out = rng.choice([p for p in PATHS2 if p != inp and not p.startswith(inp + '/') and not inp.startswith(p + '/')])
+    c1, c2, c3 = (rng.choice(modes or 'MH') for _ in range(3))
+    nested = rng.random() < 0.5
+    funcs = [
+        _fn('f0', [_sb(5)] if nested else [_sb(1), _bf(out, 2, cmp_=c2), _sb(3)]),
+        _fn('f1', [_q('read', inp, c1)]),
+        _fn('f2', [_q('read', inp, c1), ['w', None]]),
+        _fn('f3', [_q('read', out, c3)] + _probe(rng, [out, inp], 1)),
+        _fn('rootfail', []),
+        _fn('f5', [_sb(1), _bf(out, 2, cmp_=c2), _sb(3)]),
+    ]
+    funcs[4] = _fn('rootfail', funcs[0]['stmts'] + [['raise', 99]])
+    tree = [[inp, 'file', 'i%d' % rng.randint(0, 9), 150]]
+    steps = [_build()]
+    kinds = ['write', 'touch', 'delete'] + (['samemeta', 'samemeta', 'touch'] if samemeta else [])
+    used_samemeta = False
+    for _ in range(rng.randint(1, 3)):
+        k = rng.choice(kinds)
+        used_samemeta = used_samemeta or k == 'samemeta'
+        steps.append(['mut', k, rng.choice([inp, out]), 'm%d' % rng.randint(0, 9), 7000 + rng.randint(0, 99)])
+        steps.append(_build(root=rng.choice([0, 0, 0, 4])))
+    steps.append(_build())
+    c = {'tree': tree, 'funcs': funcs, 'steps': steps}
+    if used_samemeta and 'M' in (c1, c2, c3):
+        # METADATA cannot see a change that keeps size and mtime (by design): the from-scratch
+        # reference does not apply, only the model of the comparison modes does
+        c['no_spec'] = True
+    return c
+
+
+SCENARIOS = [scen_nested_failure, scen_swap, scen_stale_dir, scen_dups, scen_versions, scen_reads]
+
+
+def gen_scenario_cases(seed, per_family, dirsize=4096, families=SCENARIOS):
+    out = []
+    for fi, fam in enumerate(families):
+        for i in range(per_family):
+            rng = random.Random(seed * 1009 + fi * 100003 + i)
+            c = fam(rng)
+            c.update({'kind': 'hist', 'seed': 'scen:%s:%d:%d' % (fam.__name__, seed, i), 'dirsize': dirsize, 'cache': 'cache.gz'})
+            out.append(c)
+    return out
